@@ -15,32 +15,32 @@ PROPS = {
     },
     "C02": {
         "generators": [{"name": "C02"}],
-        "explanation": "Theorems close_ok, close_reopen_ok, reopen_close_same_log over every invariant state; sessions on the physical index (free list and bucket files across Close / Open / kill, PhysDB.phys_sessions). Tie: histories cut into sessions; full state dumps before Close, after Close, after Open compared with the model; ShapeCheck.close_order / close_syncs over the regenerated Close skeleton.",
+        "explanation": "Theorems close_ok, close_reopen_ok, reopen_close_same_log over every invariant state; sessions on the physical index (free list and bucket files across Close / Open / kill, PhysDB.phys_sessions; PhysCrash.phys_close_reopen_ok: what Close stores satisfies the physical invariant). Tie: histories cut into sessions; full state dumps before Close, after Close, after Open compared with the model; ShapeCheck.close_order / close_syncs over the regenerated Close skeleton.",
         "assumptions": COMMON_ASSUME + ["gob encoding of metadata is abstracted to its content"],
     },
     "C03": {
         "generators": [{"name": "C03"}],
-        "explanation": "Theorems C03_put/delete/sync/close and crash_open_recover: for every crash image (every prefix of the operation's file-system calls, every cut of a record write) the next Open succeeds with the invariant and the contents before or after the operation. Tie: the model's call trace is compared call by call (names, offsets, payload of segment writes) with the implementation's; sampled crash images are materialised on both sides and reopened.",
+        "explanation": "Theorems C03_put/delete/sync/close and crash_open_recover: for every crash image (every prefix of the operation's file-system calls, every cut of a record write) the next Open succeeds with the invariant and the contents before or after the operation; the same on the bucket-chain index (DBSimSessions.v) and on the physical index with offsets and free list (PhysCrash.v: crash images of related runs are related and store only well-formed indexes). Tie: the model's call trace is compared call by call (names, offsets, payload of segment writes) with the implementation's; sampled crash images are materialised on both sides and reopened.",
         "assumptions": COMMON_ASSUME + ["process-crash model of the property; index and metadata file writes are single events whose content the theorems do not depend on"],
     },
     "C04": {
         "generators": [{"name": "C04"}],
-        "explanation": "Theorem C04_chain: for every finite sequence of (history, crash point) epochs including crashes inside the recovering Open; recover_idempotent. Tie: chains of 1-5 epochs on both sides with state dumps (append positions vs file lengths) after every recovery.",
+        "explanation": "Theorem C04_chain: for every finite sequence of (history, crash point) epochs including crashes inside the recovering Open; recover_idempotent; a crash inside a recovering Open on the physical index (PhysCrash.v); a process crash inside a CLEAN Open (PowerLoss3.crash_during_clean_open). Tie: chains of 1-5 epochs on both sides with state dumps (append positions vs file lengths) after every recovery.",
         "assumptions": COMMON_ASSUME,
     },
     "C05": {
         "generators": [{"name": "C05"}],
-        "explanation": "Theorems compact_pick_ok, compact_step_ok (each micro-step preserves the contents and the invariants Inv, CInv, MetaOK), writers preserve CInv, db_compact_ok, no resurrection after recovery. Tie: Compact stepped yield point by yield point with writer operations in between (also Puts of new keys that split buckets inside the per-record windows), crash inside, dumps; ShapeCheck.compact_order.",
+        "explanation": "Theorems compact_pick_ok, compact_step_ok (each micro-step preserves the contents and the invariants Inv, CInv, MetaOK), writers preserve CInv, db_compact_ok, no resurrection after recovery. PhysConc.phys_creach_ok: any interleaving of compaction picks / micro-steps with writers on the PHYSICAL index returns what the plain map returns, physical invariant in every intermediate state. Tie: Compact stepped yield point by yield point with writer operations in between (also Puts of new keys that split buckets inside the per-record windows), crash inside, dumps; ShapeCheck.compact_order.",
         "assumptions": COMMON_ASSUME,
     },
     "C06": {
         "generators": [{"name": "C06"}],
-        "explanation": "PowerLoss.v: C06_synced_writes_survive: for every history of Put/Delete/Sync/compaction steps, every later point and every admissible power-loss image (per file: dropped or torn suffix of unsynced data), recovery succeeds and the contents are those of the last sync point followed by a prefix of the later operations; sensitivity witnesses for the two flushes it needs. PowerLoss2.v: the same over histories of any number of epochs separated by process crashes (any event, torn writes), recovering Opens that may die themselves, kills and Close / reopen, with the sync point before any number of recoveries, and for a power failure in the middle of a recovering Open. Tie: power-loss images enumerated per instant from the recorded calls and reopened, also across an earlier process crash; ShapeCheck.seal_syncs / compact_order.",
+        "explanation": "PowerLoss.v: C06_synced_writes_survive: for every history of Put/Delete/Sync/compaction steps, every later point and every admissible power-loss image (per file: dropped or torn suffix of unsynced data), recovery succeeds and the contents are those of the last sync point followed by a prefix of the later operations; sensitivity witnesses for the two flushes it needs. PowerLoss2.v: the same over histories of any number of epochs separated by process crashes (any event, torn writes), recovering Opens that may die themselves, kills and Close / reopen, with the sync point before any number of recoveries, and for a power failure in the middle of a recovering Open. PowerLoss3.v: ONE statement for a power failure after ANY number of events of such a history (C06_power_loss_at_any_instant; instant_dichotomy: the lock file exists, or the instant lies in the window after a completed Close), also with process crashes inside clean Opens. Tie: power-loss images enumerated per instant from the recorded calls and reopened, also across an earlier process crash; ShapeCheck.seal_syncs / compact_order.",
         "assumptions": COMMON_ASSUME + ["power-loss model exactly as the property words it"],
     },
     "C07": {
         "generators": [{"name": "C07"}],
-        "explanation": "Linz.v: every concurrent history (call / return events of any number of threads, each operation taking effect at one atomic action in between, pending operations allowed) of the chain-index database is linearizable in the sense of Herlihy and Wing with respect to the plain map, also with compaction running as background micro-steps (C07_linearizable, C07_linearizable_microsteps, read-your-writes corollary; sensitivity: a Get split in two instants is not). The atomicity premise is ShapeCheck.all_guarded / single_region over the regenerated lock structure and Conc.pogreb_race_free. Search: porcupine on recorded concurrent histories; readers of acknowledged keys while the database grows; deterministic interleavings of atomic steps (Compact stepped lock section by lock section with index-splitting Puts in the windows) against the micro-step model and the reference map.",
+        "explanation": "Linz.v: every concurrent history (call / return events of any number of threads, each operation taking effect at one atomic action in between, pending operations allowed) of the chain-index database is linearizable in the sense of Herlihy and Wing with respect to the plain map, also with compaction running as background micro-steps (C07_linearizable, C07_linearizable_microsteps, read-your-writes corollary; sensitivity: a Get split in two instants is not). PhysConc.v: the same two theorems for the physical-index database (C07_linearizable_phys, C07_linearizable_microsteps_phys). The atomicity premise is ShapeCheck.all_guarded / single_region over the regenerated lock structure and Conc.pogreb_race_free. Search: porcupine on recorded concurrent histories; readers of acknowledged keys while the database grows; deterministic interleavings of atomic steps (Compact stepped lock section by lock section with index-splitting Puts in the windows and a scan in progress) against the micro-step model and the reference map; a scanner goroutine whose every returned pair must have been put.",
         "assumptions": COMMON_ASSUME + ["sync.RWMutex provides mutual exclusion (trusted)"],
     },
     "C08": {
@@ -51,7 +51,7 @@ PROPS = {
     },
     "C09": {
         "generators": [{"name": "C09"}],
-        "explanation": "PowerLoss.v: C09_closed_is_durable (every admissible power-loss image after a completed Close is the closed directory), C09_reopen (next Open without recovery, closed contents), C09_power_loss_during_reopen; PowerLoss2.v: the same after histories of any number of epochs (C09_reopen_epochs) and a power failure DURING Close (C09_power_loss_during_close). Tie: power-loss images at every call from the return of Close to the completion of the next Open, reopened; Close with each of its data calls (WriteAt / Sync / Truncate) failing once: whenever it still returns nil, power-loss images right after it; ShapeCheck.close_syncs / close_order.",
+        "explanation": "PowerLoss.v: C09_closed_is_durable (every admissible power-loss image after a completed Close is the closed directory), C09_reopen (next Open without recovery, closed contents), C09_power_loss_during_reopen; PowerLoss2.v: the same after histories of any number of epochs (C09_reopen_epochs) and a power failure DURING Close (C09_power_loss_during_close); PowerLoss3.v: for histories of epochs, in the window after a completed Close and inside the next clean Open every admissible image opens to EXACTLY the closed contents. Tie: power-loss images at every call from the return of Close to the completion of the next Open, reopened; Close with each of its data calls (WriteAt / Sync / Truncate) failing once: whenever it still returns nil, power-loss images right after it; ShapeCheck.close_syncs / close_order.",
         "assumptions": COMMON_ASSUME + ["power-loss model exactly as the property words it"],
     },
     "C10": {
@@ -62,12 +62,12 @@ PROPS = {
     },
     "C11": {
         "generators": [{"name": "C11"}],
-        "explanation": "DBProofsIter.v: C11_quiescent_scan (each live key exactly once, then done for ever), C11_truthful_at_return and C11_complete_untouched over every interleaving of Next calls with Put / Delete / compaction steps / Sync (cscan), on the chain index incl. splits that move keys during the scan. Tie: Next call by call compared with the chain-index model, with writers between calls.",
+        "explanation": "DBProofsIter.v: C11_quiescent_scan (each live key exactly once, then done for ever), C11_truthful_at_return and C11_complete_untouched over every interleaving of Next calls with Put / Delete / compaction steps / Sync (cscan), on the chain index incl. splits that move keys during the scan; PhysIterBackup.v: the same statements with the scan running over the physical buckets (call by call equal to the chain scan, physical invariant in every state). Tie: Next call by call compared with the chain-index model, with writers between calls.",
         "assumptions": COMMON_ASSUME,
     },
     "C12": {
         "generators": [{"name": "C12"}],
-        "explanation": "DBProofsBackup.v: C12_schedule: for every interleaving of the backup micro-steps with writer operations the backup directory recovers to exactly the snapshot contents and the source is untouched (also when a copy reads a disk between two file-system calls of a writer). Tie: Backup stepped at its yield points with writers in between; ShapeCheck.backup_shape.",
+        "explanation": "DBProofsBackup.v: C12_schedule: for every interleaving of the backup micro-steps with writer operations the backup directory recovers to exactly the snapshot contents and the source is untouched (also when a copy reads a disk between two file-system calls of a writer); PhysIterBackup.C12_schedule_phys: the same on the physical index (the opened backup rebuilds a well-formed physical index). Tie: Backup stepped, also after clean restarts whose first write rolled the log over; at its yield points with writers in between; ShapeCheck.backup_shape.",
         "assumptions": COMMON_ASSUME,
     },
     "C13": {
